@@ -265,4 +265,586 @@ theorem compileE_writes (ls : List Loc) (e : Expr) :
           simp only [Instr.writes, List.mem_singleton] at hx; subst hx
           exact A.1
 
+/-! ### correctness of expression code -/
+
+/-- what `compileE_correct` says about one expression -/
+def ExprOK (env : Nat → Nat → Nat) (w : Nat) (ls : List Loc) (e : Expr) : Prop :=
+  ∀ (busy : List Nat) (c : List Instr) (r : Nat) (busy' : List Nat),
+    compileE ls e busy = some (c, r, busy') →
+    ∀ (pre post : List Instr) (cfg : Cfg) (s : Src), cfg.pc = pre.length → Agree ls busy cfg s →
+      (isaRun env w (pre ++ c ++ post) c.length cfg).pc = pre.length + c.length ∧
+      (isaRun env w (pre ++ c ++ post) c.length cfg).regs r = (evalE env w e s).1 ∧
+      (isaRun env w (pre ++ c ++ post) c.length cfg).mem = cfg.mem ∧
+      (isaRun env w (pre ++ c ++ post) c.length cfg).outs = cfg.outs ∧
+      (isaRun env w (pre ++ c ++ post) c.length cfg).rc = (evalE env w e s).2.rc ∧
+      (evalE env w e s).2.vars = s.vars ∧ (evalE env w e s).2.outs = s.outs ∧
+      (∀ x ∈ busy, (isaRun env w (pre ++ c ++ post) c.length cfg).regs x = cfg.regs x)
+
+theorem upd_same (f : Nat → Nat) (k v : Nat) : upd f k v k = v := by simp [upd]
+theorem upd_other (f : Nat → Nat) (k v x : Nat) (h : x ≠ k) : upd f k v x = f x := by simp [upd, h]
+
+theorem leaf_run (env : Nat → Nat → Nat) (w : Nat) (pre post : List Instr) (i : Instr) (cfg : Cfg)
+    (hpc : cfg.pc = pre.length) :
+    isaRun env w (pre ++ [i] ++ post) [i].length cfg = execInstr env w cfg i := by
+  have : pre ++ [i] ++ post = pre ++ i :: post := by simp
+  rw [this]
+  exact isaRun_one_at env w pre post i cfg hpc
+
+theorem exprOK_lit (env : Nat → Nat → Nat) (w : Nat) (ls : List Loc) (n : Nat) : ExprOK env w ls (.lit n) := by
+  intro busy c r busy' h pre post cfg s hpc hag
+  simp only [compileE, Option.some.injEq, Prod.mk.injEq] at h
+  obtain ⟨h1, h2, _⟩ := h; subst h1; subst h2
+  rw [leaf_run env w pre post _ cfg hpc]
+  refine ⟨by simp [execInstr, hpc], by simp [execInstr, upd_same, evalE], rfl, rfl, by simp [execInstr, evalE, hag.rc], rfl, rfl, ?_⟩
+  intro x hx
+  have : x ≠ fresh busy := fun e => fresh_not_mem busy (e ▸ hx)
+  simp [execInstr, upd_other _ _ _ _ this]
+
+theorem exprOK_ioread (env : Nat → Nat → Nat) (w : Nat) (ls : List Loc) (i : Nat) : ExprOK env w ls (.ioread i) := by
+  intro busy c r busy' h pre post cfg s hpc hag
+  simp only [compileE, Option.some.injEq, Prod.mk.injEq] at h
+  obtain ⟨h1, h2, _⟩ := h; subst h1; subst h2
+  rw [leaf_run env w pre post _ cfg hpc]
+  refine ⟨by simp [execInstr, hpc], by simp [execInstr, upd_same, evalE, hag.rc], rfl, rfl, by simp [execInstr, evalE, hag.rc], rfl, rfl, ?_⟩
+  intro x hx
+  have : x ≠ fresh busy := fun e => fresh_not_mem busy (e ▸ hx)
+  simp [execInstr, upd_other _ _ _ _ this]
+
+theorem exprOK_var (env : Nat → Nat → Nat) (w : Nat) (ls : List Loc) (v : Nat) : ExprOK env w ls (.var v) := by
+  intro busy c r busy' h pre post cfg s hpc hag
+  simp only [compileE] at h
+  split at h <;> simp only [Option.some.injEq, Prod.mk.injEq, reduceCtorEq] at h
+  · rename_i g hl
+    obtain ⟨h1, h2, _⟩ := h; subst h1; subst h2
+    rw [leaf_run env w pre post _ cfg hpc]
+    refine ⟨by simp [execInstr, hpc], by simp [execInstr, upd_same, evalE, (hag.regv v g hl).1], rfl, rfl, by simp [execInstr, evalE, hag.rc], rfl, rfl, ?_⟩
+    intro x hx
+    have : x ≠ fresh busy := fun e => fresh_not_mem busy (e ▸ hx)
+    simp [execInstr, upd_other _ _ _ _ this]
+  · rename_i m hl
+    obtain ⟨h1, h2, _⟩ := h; subst h1; subst h2
+    rw [leaf_run env w pre post _ cfg hpc]
+    refine ⟨by simp [execInstr, hpc], by simp [execInstr, upd_same, evalE, hag.memv v m hl], rfl, rfl, by simp [execInstr, evalE, hag.rc], rfl, rfl, ?_⟩
+    intro x hx
+    have : x ≠ fresh busy := fun e => fresh_not_mem busy (e ▸ hx)
+    simp [execInstr, upd_other _ _ _ _ this]
+
+
+/-- binary operators: `ca ++ cb ++ [op ra rb]` -/
+theorem bin_run (env : Nat → Nat → Nat) (w : Nat) (ls : List Loc) (a b : Expr)
+    (f : Nat → Nat → Nat) (op : Nat → Nat → Instr)
+    (hop : ∀ (c : Cfg) (d s : Nat), execInstr env w c (op d s) =
+      { c with pc := c.pc + 1, regs := upd c.regs d (f (c.regs d) (c.regs s) % 2 ^ w) })
+    (iha : ExprOK env w ls a) (ihb : ExprOK env w ls b)
+    (busy busy1 busy2 : List Nat) (ca cb : List Instr) (ra rb : Nat)
+    (ha : compileE ls a busy = some (ca, ra, busy1)) (hb : compileE ls b busy1 = some (cb, rb, busy2))
+    (pre post : List Instr) (cfg : Cfg) (s : Src) (hpc : cfg.pc = pre.length) (hag : Agree ls busy cfg s) :
+    let c := ca ++ cb ++ [op ra rb]
+    let s1 := (evalE env w a s).2
+    let va := (evalE env w a s).1
+    let vb := (evalE env w b s1).1
+    let s2 := (evalE env w b s1).2
+    let cfg' := isaRun env w (pre ++ c ++ post) c.length cfg
+    cfg'.pc = pre.length + c.length ∧ cfg'.regs ra = f va vb % 2 ^ w ∧ cfg'.mem = cfg.mem ∧
+    cfg'.outs = cfg.outs ∧ cfg'.rc = s2.rc ∧ s2.vars = s.vars ∧ s2.outs = s.outs ∧
+    (∀ x ∈ busy, cfg'.regs x = cfg.regs x) := by
+  intro c s1 va vb s2 cfg'
+  have hP1 : pre ++ c ++ post = pre ++ ca ++ (cb ++ [op ra rb] ++ post) := by
+    simp [c, List.append_assoc]
+  have hP2 : pre ++ c ++ post = (pre ++ ca) ++ cb ++ ([op ra rb] ++ post) := by
+    simp [c, List.append_assoc]
+  have hP3 : pre ++ c ++ post = (pre ++ ca ++ cb) ++ op ra rb :: post := by
+    simp [c, List.append_assoc]
+  have hlen : c.length = ca.length + cb.length + 1 := by simp [c]; omega
+  obtain ⟨ma1, ma2, ma3⟩ := compileE_mono ls a _ _ _ _ ha
+  obtain ⟨mb1, mb2, mb3⟩ := compileE_mono ls b _ _ _ _ hb
+  -- run a
+  obtain ⟨a1, a2, a3, a4, a5, a6, a7, a8⟩ := iha busy ca ra busy1 ha pre (cb ++ [op ra rb] ++ post) cfg s hpc hag
+  rw [← hP1] at a1 a2 a3 a4 a5 a8
+  -- agreement after a
+  have hag1 : Agree ls busy1 (isaRun env w (pre ++ c ++ post) ca.length cfg) s1 := by
+    refine ⟨fun x g hl => ?_, fun x m hl => ?_, a5⟩
+    · obtain ⟨h1, h2⟩ := hag.regv x g hl
+      exact ⟨by rw [a8 g h2, h1, a6], ma3 g h2⟩
+    · rw [a3, hag.memv x m hl, a6]
+  -- run b
+  have hpc1 : (isaRun env w (pre ++ c ++ post) ca.length cfg).pc = (pre ++ ca).length := by
+    rw [a1]; simp
+  obtain ⟨b1, b2, b3, b4, b5, b6, b7, b8⟩ :=
+    ihb busy1 cb rb busy2 hb (pre ++ ca) ([op ra rb] ++ post) _ s1 hpc1 hag1
+  rw [← hP2, ← isaRun_add] at b1 b2 b3 b4 b5 b8
+  -- the operator
+  have hpc2 : (isaRun env w (pre ++ c ++ post) (ca.length + cb.length) cfg).pc = (pre ++ ca ++ cb).length := by
+    rw [b1]; simp [Nat.add_assoc]
+  have hfin : cfg' = execInstr env w (isaRun env w (pre ++ c ++ post) (ca.length + cb.length) cfg) (op ra rb) := by
+    show isaRun env w (pre ++ c ++ post) c.length cfg = _
+    rw [hlen, isaRun_add]
+    conv => lhs; rw [hP3]
+    rw [isaRun_one_at env w (pre ++ ca ++ cb) post (op ra rb) _ (by rw [← hP3]; exact hpc2)]
+    rw [← hP3]
+  have hne : ra ≠ rb := fun e => mb1 (e ▸ ma2)
+  rw [hfin, hop]
+  refine ⟨?_, ?_, ?_, ?_, ?_, ?_, ?_, ?_⟩
+  · simp only [b1, hlen]; simp; omega
+  · simp only [upd_same]
+    rw [b2, b8 ra ma2, a2]
+  · simp only; rw [b3, a3]
+  · simp only; rw [b4, a4]
+  · simp only; exact b5
+  · rw [b6, a6]
+  · rw [b7, a7]
+  · intro x hx
+    have hx1 : x ≠ ra := fun e => ma1 (e ▸ hx)
+    simp only [upd_other _ _ _ _ hx1]
+    rw [b8 x (ma3 x hx), a8 x hx]
+
+theorem exprOK_all (env : Nat → Nat → Nat) (w : Nat) (ls : List Loc) (e : Expr) : ExprOK env w ls e := by
+  induction e with
+  | lit n => exact exprOK_lit env w ls n
+  | var v => exact exprOK_var env w ls v
+  | ioread i => exact exprOK_ioread env w ls i
+  | add a b iha ihb =>
+    intro busy c r busy' h pre post cfg s hpc hag
+    simp only [compileE] at h
+    split at h
+    · cases h
+    · rename_i ca ra busy1 ha
+      split at h
+      · cases h
+      · rename_i cb rb busy2 hb
+        simp only [Option.some.injEq, Prod.mk.injEq] at h
+        obtain ⟨h1, h2, _⟩ := h; subst h1; subst h2
+        have := bin_run env w ls a b (· + ·) Instr.add (fun c d s => by simp [execInstr]) iha ihb
+          busy busy1 busy2 ca cb ra rb ha hb pre post cfg s hpc hag
+        simpa [evalE] using this
+  | mul a b iha ihb =>
+    intro busy c r busy' h pre post cfg s hpc hag
+    simp only [compileE] at h
+    split at h
+    · cases h
+    · rename_i ca ra busy1 ha
+      split at h
+      · cases h
+      · rename_i cb rb busy2 hb
+        simp only [Option.some.injEq, Prod.mk.injEq] at h
+        obtain ⟨h1, h2, _⟩ := h; subst h1; subst h2
+        have := bin_run env w ls a b (· * ·) Instr.mult (fun c d s => by simp [execInstr]) iha ihb
+          busy busy1 busy2 ca cb ra rb ha hb pre post cfg s hpc hag
+        simpa [evalE] using this
+
+
+/-! ### correctness of straight-line statement code -/
+
+/-- distinct variables live in distinct places -/
+def LocsInj (ls : List Loc) : Prop := ∀ (x y : Nat) (l : Loc), ls[x]? = some l → ls[y]? = some l → x = y
+
+/-- straight-line statements: no `if`, no `for` -/
+def straight : Stmt → Bool
+  | .skip => true
+  | .seq a b => straight a && straight b
+  | .assign _ _ | .inc _ | .dec _ | .iowrite _ _ => true
+  | _ => false
+
+/-- run the code of an expression followed by one more instruction -/
+theorem expr_then_instr (env : Nat → Nat → Nat) (w : Nat) (ls : List Loc) (e : Expr)
+    (busy : List Nat) (ce : List Instr) (r : Nat) (busy1 : List Nat)
+    (he : compileE ls e busy = some (ce, r, busy1)) (i : Instr)
+    (pre post : List Instr) (cfg : Cfg) (s : Src) (hpc : cfg.pc = pre.length) (hag : Agree ls busy cfg s) :
+    ∃ mid : Cfg,
+      isaRun env w (pre ++ (ce ++ [i]) ++ post) (ce ++ [i]).length cfg = execInstr env w mid i ∧
+      mid.pc = pre.length + ce.length ∧ mid.regs r = (evalE env w e s).1 ∧ mid.mem = cfg.mem ∧
+      mid.outs = cfg.outs ∧ mid.rc = (evalE env w e s).2.rc ∧ (evalE env w e s).2.vars = s.vars ∧
+      (evalE env w e s).2.outs = s.outs ∧ (∀ x ∈ busy, mid.regs x = cfg.regs x) := by
+  have hP1 : pre ++ (ce ++ [i]) ++ post = pre ++ ce ++ ([i] ++ post) := by simp [List.append_assoc]
+  have hP2 : pre ++ (ce ++ [i]) ++ post = (pre ++ ce) ++ i :: post := by simp [List.append_assoc]
+  obtain ⟨a1, a2, a3, a4, a5, a6, a7, a8⟩ := exprOK_all env w ls e busy ce r busy1 he pre ([i] ++ post) cfg s hpc hag
+  rw [← hP1] at a1 a2 a3 a4 a5 a8
+  refine ⟨isaRun env w (pre ++ (ce ++ [i]) ++ post) ce.length cfg, ?_, a1, a2, a3, a4, a5, a6, a7, a8⟩
+  have hl : (ce ++ [i]).length = ce.length + 1 := by simp
+  rw [hl, isaRun_add]
+  conv => lhs; rw [hP2]
+  rw [isaRun_one_at env w (pre ++ ce) post i _ (by rw [← hP2, a1]; simp)]
+  rw [← hP2]
+
+theorem run3 (env : Nat → Nat → Nat) (w : Nat) (pre post : List Instr) (i1 i2 i3 : Instr) (cfg : Cfg)
+    (hpc : cfg.pc = pre.length)
+    (h1 : (execInstr env w cfg i1).pc = cfg.pc + 1)
+    (h2 : (execInstr env w (execInstr env w cfg i1) i2).pc = cfg.pc + 2) :
+    isaRun env w (pre ++ [i1, i2, i3] ++ post) [i1, i2, i3].length cfg =
+      execInstr env w (execInstr env w (execInstr env w cfg i1) i2) i3 := by
+  have hP1 : pre ++ [i1, i2, i3] ++ post = pre ++ i1 :: ([i2, i3] ++ post) := by simp
+  have hP2 : pre ++ [i1, i2, i3] ++ post = (pre ++ [i1]) ++ i2 :: ([i3] ++ post) := by simp
+  have hP3 : pre ++ [i1, i2, i3] ++ post = (pre ++ [i1, i2]) ++ i3 :: post := by simp
+  show isaRun env w _ (1 + 1 + 1) cfg = _
+  rw [isaRun_add, isaRun_add]
+  conv => lhs; arg 5; arg 5; rw [hP1, isaRun_one_at env w pre _ i1 cfg hpc]
+  conv => lhs; arg 5; rw [hP2, isaRun_one_at env w (pre ++ [i1]) _ i2 _ (by rw [h1, hpc]; simp)]
+  rw [hP3, isaRun_one_at env w (pre ++ [i1, i2]) _ i3 _ (by rw [h2, hpc]; simp)]
+
+/-- `x++` / `x--` : `iop` is `inc` or `dec`, `f` its effect on a value -/
+theorem incdec_ok (env : Nat → Nat → Nat) (w : Nat) (ls : List Loc) (hinj : LocsInj ls)
+    (iop : Nat → Instr) (f : Nat → Nat)
+    (hop : ∀ (c : Cfg) (r : Nat), execInstr env w c (iop r) = { c with pc := c.pc + 1, regs := upd c.regs r (f (c.regs r)) })
+    (x : Nat) (busy : List Nat) (c : List Instr) (busy' : List Nat)
+    (h : (match ls[x]? with
+      | some (.reg g) => some ([iop g], busy)
+      | some (.mem m) => some ([.m2r (fresh busy) m, iop (fresh busy), .r2m (fresh busy) m], busy)
+      | none => none) = some (c, busy'))
+    (pre post : List Instr) (cfg : Cfg) (s : Src) (hpc : cfg.pc = pre.length) (hag : Agree ls busy cfg s)
+    (ho : cfg.outs = s.outs) :
+    (isaRun env w (pre ++ c ++ post) c.length cfg).pc = pre.length + c.length ∧
+    Agree ls busy' (isaRun env w (pre ++ c ++ post) c.length cfg) { s with vars := upd s.vars x (f (s.vars x)) } ∧
+    (isaRun env w (pre ++ c ++ post) c.length cfg).outs = s.outs := by
+  split at h
+  · rename_i g hl
+    simp only [Option.some.injEq, Prod.mk.injEq] at h
+    obtain ⟨e1, e2⟩ := h; subst e1; subst e2
+    rw [leaf_run env w pre post _ cfg hpc, hop]
+    refine ⟨by simp [hpc], ⟨fun y g' hy => ?_, fun y m hy => ?_, hag.rc⟩, ho⟩
+    · obtain ⟨z1, z2⟩ := hag.regv y g' hy
+      refine ⟨?_, z2⟩
+      by_cases hyx : y = x
+      · subst hyx
+        rw [hl] at hy; cases hy
+        simp [upd_same, z1]
+      · have : g' ≠ g := fun e' => hyx (hinj y x _ hy (e' ▸ hl))
+        simp [upd_other _ _ _ _ this, upd_other _ _ _ _ hyx, z1]
+    · have hyx : y ≠ x := fun e' => by subst e'; rw [hl] at hy; cases hy
+      simp [upd_other _ _ _ _ hyx, hag.memv y m hy]
+  · rename_i mx hl
+    simp only [Option.some.injEq, Prod.mk.injEq] at h
+    obtain ⟨e1, e2⟩ := h; subst e1; subst e2
+    rw [run3 env w pre post _ _ _ cfg hpc (by simp [execInstr]) (by rw [hop]; simp [execInstr])]
+    simp only [hop]
+    refine ⟨by simp [execInstr, hpc], ⟨fun y g' hy => ?_, fun y m hy => ?_, by simp [execInstr, hag.rc]⟩, by simp [execInstr, ho]⟩
+    · obtain ⟨z1, z2⟩ := hag.regv y g' hy
+      have hg' : g' ≠ fresh busy := fun e' => fresh_not_mem busy (e' ▸ z2)
+      have hyx : y ≠ x := fun e' => by subst e'; rw [hl] at hy; cases hy
+      exact ⟨by simp [execInstr, upd_other _ _ _ _ hg', upd_other _ _ _ _ hyx, z1], z2⟩
+    · by_cases hyx : y = x
+      · subst hyx
+        rw [hl] at hy; cases hy
+        simp [execInstr, upd_same, hag.memv _ _ hl]
+      · have : m ≠ mx := fun e' => hyx (hinj y x _ hy (e' ▸ hl))
+        simp [execInstr, upd_other _ _ _ _ this, upd_other _ _ _ _ hyx, hag.memv y m hy]
+  · cases h
+
+theorem straight_correct (env : Nat → Nat → Nat) (w fuel : Nat) (ls : List Loc) (hinj : LocsInj ls)
+    (st : Stmt) (hs : straight st = true) :
+    ∀ (base : Nat) (busy : List Nat) (c : List Instr) (busy' : List Nat),
+      compileS ls st base busy = some (c, busy') →
+      ∀ (pre post : List Instr) (cfg : Cfg) (s : Src), cfg.pc = pre.length → Agree ls busy cfg s →
+        cfg.outs = s.outs →
+        (exec env w fuel st s).2 = true ∧
+        (isaRun env w (pre ++ c ++ post) c.length cfg).pc = pre.length + c.length ∧
+        Agree ls busy' (isaRun env w (pre ++ c ++ post) c.length cfg) (exec env w fuel st s).1 ∧
+        (isaRun env w (pre ++ c ++ post) c.length cfg).outs = (exec env w fuel st s).1.outs := by
+  induction st with
+  | skip =>
+    intro base busy c busy' h pre post cfg s hpc hag ho
+    simp only [compileS, Option.some.injEq, Prod.mk.injEq] at h
+    obtain ⟨h1, h2⟩ := h; subst h1; subst h2
+    simp only [exec, List.length_nil, isaRun]
+    exact ⟨trivial, by simp [hpc], hag, ho⟩
+  | seq a b iha ihb =>
+    intro base busy c busy' h pre post cfg s hpc hag ho
+    simp only [straight, Bool.and_eq_true] at hs
+    simp only [compileS] at h
+    split at h
+    · cases h
+    · rename_i c1 busy1 h1
+      split at h
+      · cases h
+      · rename_i c2 busy2 h2
+        simp only [Option.some.injEq, Prod.mk.injEq] at h
+        obtain ⟨e1, e2⟩ := h; subst e1; subst e2
+        have hP1 : pre ++ (c1 ++ c2) ++ post = pre ++ c1 ++ (c2 ++ post) := by simp [List.append_assoc]
+        have hP2 : pre ++ (c1 ++ c2) ++ post = (pre ++ c1) ++ c2 ++ post := by simp [List.append_assoc]
+        obtain ⟨x1, x2, x3, x4⟩ := iha hs.1 base busy c1 busy1 h1 pre (c2 ++ post) cfg s hpc hag ho
+        rw [← hP1] at x2 x3 x4
+        obtain ⟨y1, y2, y3, y4⟩ := ihb hs.2 _ busy1 c2 busy2 h2 (pre ++ c1) post _ _ (by rw [x2]; simp) x3 x4
+        rw [← hP2, ← isaRun_add] at y2 y3 y4
+        have hl : (c1 ++ c2).length = c1.length + c2.length := by simp
+        have hex : exec env w fuel (.seq a b) s = exec env w fuel b (exec env w fuel a s).1 := by
+          simp only [exec]
+          generalize hr : exec env w fuel a s = r at x1
+          obtain ⟨r1, r2⟩ := r
+          simp only at x1; subst x1
+          rfl
+        rw [hex, hl]
+        exact ⟨y1, by rw [y2]; simp [Nat.add_assoc], y3, y4⟩
+  | assign x e =>
+    intro base busy c busy' h pre post cfg s hpc hag ho
+    simp only [compileS] at h
+    split at h
+    · -- register variable
+      rename_i g ce r busy1 hl he
+      simp only [Option.some.injEq, Prod.mk.injEq] at h
+      obtain ⟨e1, e2⟩ := h; subst e1; subst e2
+      obtain ⟨mid, m0, m1, m2, m3, m4, m5, m6, m7, m8⟩ :=
+        expr_then_instr env w ls e busy ce r busy1 he (.cpy g r) pre post cfg s hpc hag
+      obtain ⟨q1, q2, q3⟩ := compileE_mono ls e _ _ _ _ he
+      rw [m0]
+      simp only [exec]
+      refine ⟨trivial, by simp [execInstr, m1]; omega, ⟨fun y g' hy => ?_, fun y m hy => ?_, by simp [execInstr, m5]⟩, by simp [execInstr, m4, ho, m7]⟩
+      · obtain ⟨z1, z2⟩ := hag.regv y g' hy
+        have hg' : g' ≠ r := fun e' => q1 (e' ▸ z2)
+        refine ⟨?_, (List.mem_erase_of_ne hg').mpr (q3 _ z2)⟩
+        by_cases hyx : y = x
+        · subst hyx
+          rw [hl] at hy; cases hy
+          simp [execInstr, upd_same, m2]
+        · have : g' ≠ g := fun e' => hyx (hinj y x _ hy (e' ▸ hl))
+          simp [execInstr, upd_other _ _ _ _ this, upd_other _ _ _ _ hyx, m8 g' z2, z1, m6]
+      · have hyx : y ≠ x := fun e' => by subst e'; rw [hl] at hy; cases hy
+        simp [execInstr, upd_other _ _ _ _ hyx, m3, hag.memv y m hy, m6]
+    · -- memory variable
+      rename_i mx ce r busy1 hl he
+      simp only [Option.some.injEq, Prod.mk.injEq] at h
+      obtain ⟨e1, e2⟩ := h; subst e1; subst e2
+      obtain ⟨mid, m0, m1, m2, m3, m4, m5, m6, m7, m8⟩ :=
+        expr_then_instr env w ls e busy ce r busy1 he (.r2m r mx) pre post cfg s hpc hag
+      obtain ⟨q1, q2, q3⟩ := compileE_mono ls e _ _ _ _ he
+      rw [m0]
+      simp only [exec]
+      refine ⟨trivial, by simp [execInstr, m1]; omega, ⟨fun y g' hy => ?_, fun y m hy => ?_, by simp [execInstr, m5]⟩, by simp [execInstr, m4, ho, m7]⟩
+      · obtain ⟨z1, z2⟩ := hag.regv y g' hy
+        have hg' : g' ≠ r := fun e' => q1 (e' ▸ z2)
+        have hyx : y ≠ x := fun e' => by subst e'; rw [hl] at hy; cases hy
+        exact ⟨by simp [execInstr, upd_other _ _ _ _ hyx, m8 g' z2, z1, m6], (List.mem_erase_of_ne hg').mpr (q3 _ z2)⟩
+      · by_cases hyx : y = x
+        · subst hyx
+          rw [hl] at hy; cases hy
+          simp [execInstr, upd_same, m2]
+        · have : m ≠ mx := fun e' => hyx (hinj y x _ hy (e' ▸ hl))
+          simp [execInstr, upd_other _ _ _ _ this, upd_other _ _ _ _ hyx, m3, hag.memv y m hy, m6]
+    · cases h
+  | iowrite o e =>
+    intro base busy c busy' h pre post cfg s hpc hag ho
+    simp only [compileS] at h
+    split at h
+    · rename_i ce r busy1 he
+      simp only [Option.some.injEq, Prod.mk.injEq] at h
+      obtain ⟨e1, e2⟩ := h; subst e1; subst e2
+      obtain ⟨mid, m0, m1, m2, m3, m4, m5, m6, m7, m8⟩ :=
+        expr_then_instr env w ls e busy ce r busy1 he (.r2o r o) pre post cfg s hpc hag
+      obtain ⟨q1, q2, q3⟩ := compileE_mono ls e _ _ _ _ he
+      rw [m0]
+      simp only [exec]
+      refine ⟨trivial, by simp [execInstr, m1]; omega, ⟨fun y g' hy => ?_, fun y m hy => ?_, by simp [execInstr, m5]⟩, by simp [execInstr, m4, ho, m7, m2]⟩
+      · obtain ⟨z1, z2⟩ := hag.regv y g' hy
+        exact ⟨by simp [execInstr, m8 g' z2, z1, m6], q3 _ z2⟩
+      · simp [execInstr, m3, hag.memv y m hy, m6]
+    · cases h
+  | inc x =>
+    intro base busy c busy' h pre post cfg s hpc hag ho
+    simp only [compileS] at h
+    have := incdec_ok env w ls hinj Instr.inc (fun v => (v + 1) % 2 ^ w) (fun c r => by simp [execInstr])
+      x busy c busy' h pre post cfg s hpc hag ho
+    simp only [exec]
+    exact ⟨trivial, this.1, this.2.1, this.2.2⟩
+  | dec x =>
+    intro base busy c busy' h pre post cfg s hpc hag ho
+    simp only [compileS] at h
+    have := incdec_ok env w ls hinj Instr.dec (fun v => (v + (2 ^ w - 1)) % 2 ^ w) (fun c r => by simp [execInstr])
+      x busy c busy' h pre post cfg s hpc hag ho
+    simp only [exec]
+    exact ⟨trivial, this.1, this.2.1, this.2.2⟩
+  | ifThen _ _ _ => simp [straight] at hs
+  | ifElse _ _ _ _ _ => simp [straight] at hs
+  | loop _ _ _ => simp [straight] at hs
+
+
+/-! ### declarations and whole straight-line programs -/
+
+/-- the reset state: everything zero -/
+structure ZeroState (cfg : Cfg) : Prop where
+  regs : cfg.regs = fun _ => 0
+  mem : cfg.mem = fun _ => 0
+  rc : cfg.rc = 0
+  outs : cfg.outs = []
+
+theorem upd_zero (k : Nat) : upd (fun _ => 0) k 0 = fun _ => 0 := by
+  funext i; simp [upd]
+
+theorem preamble_run (env : Nat → Nat → Nat) (w : Nat) (ds : List Bool) :
+    ∀ (busy : List Nat) (m : Nat) (pre post : List Instr) (cfg : Cfg), cfg.pc = pre.length → ZeroState cfg →
+      (isaRun env w (pre ++ preambleFrom ds busy m ++ post) (preambleFrom ds busy m).length cfg).pc
+          = pre.length + (preambleFrom ds busy m).length ∧
+      ZeroState (isaRun env w (pre ++ preambleFrom ds busy m ++ post) (preambleFrom ds busy m).length cfg) := by
+  induction ds with
+  | nil =>
+    intro busy m pre post cfg hpc hz
+    simp [preambleFrom, isaRun, hpc, hz]
+  | cons d ds ih =>
+    intro busy m pre post cfg hpc hz
+    cases d with
+    | true =>
+      simp only [preambleFrom]
+      have hP : pre ++ (Instr.clr (fresh busy) :: preambleFrom ds (fresh busy :: busy) m) ++ post
+          = pre ++ Instr.clr (fresh busy) :: (preambleFrom ds (fresh busy :: busy) m ++ post) := by simp
+      have hP2 : pre ++ (Instr.clr (fresh busy) :: preambleFrom ds (fresh busy :: busy) m) ++ post
+          = (pre ++ [Instr.clr (fresh busy)]) ++ preambleFrom ds (fresh busy :: busy) m ++ post := by simp
+      have hl : (Instr.clr (fresh busy) :: preambleFrom ds (fresh busy :: busy) m).length
+          = 1 + (preambleFrom ds (fresh busy :: busy) m).length := by simp; omega
+      rw [hl, isaRun_add]
+      have e1 : isaRun env w (pre ++ (Instr.clr (fresh busy) :: preambleFrom ds (fresh busy :: busy) m) ++ post) 1 cfg
+          = execInstr env w cfg (Instr.clr (fresh busy)) := by
+        rw [hP]; exact isaRun_one_at env w pre _ _ cfg hpc
+      rw [e1]
+      have hz1 : ZeroState (execInstr env w cfg (Instr.clr (fresh busy))) :=
+        ⟨by simp [execInstr, hz.regs, upd_zero], by simp [execInstr, hz.mem], by simp [execInstr, hz.rc], by simp [execInstr, hz.outs]⟩
+      have := ih (fresh busy :: busy) m (pre ++ [Instr.clr (fresh busy)]) post _ (by simp [execInstr, hpc]) hz1
+      rw [← hP2] at this
+      refine ⟨by rw [this.1]; simp; omega, this.2⟩
+    | false =>
+      simp only [preambleFrom]
+      have hP : pre ++ (Instr.clr (fresh busy) :: Instr.r2m (fresh busy) m :: preambleFrom ds busy (m + 1)) ++ post
+          = pre ++ Instr.clr (fresh busy) :: (Instr.r2m (fresh busy) m :: preambleFrom ds busy (m + 1) ++ post) := by simp
+      have hP1 : pre ++ (Instr.clr (fresh busy) :: Instr.r2m (fresh busy) m :: preambleFrom ds busy (m + 1)) ++ post
+          = (pre ++ [Instr.clr (fresh busy)]) ++ Instr.r2m (fresh busy) m :: (preambleFrom ds busy (m + 1) ++ post) := by simp
+      have hP2 : pre ++ (Instr.clr (fresh busy) :: Instr.r2m (fresh busy) m :: preambleFrom ds busy (m + 1)) ++ post
+          = (pre ++ [Instr.clr (fresh busy), Instr.r2m (fresh busy) m]) ++ preambleFrom ds busy (m + 1) ++ post := by simp
+      have hl : (Instr.clr (fresh busy) :: Instr.r2m (fresh busy) m :: preambleFrom ds busy (m + 1)).length
+          = 1 + (1 + (preambleFrom ds busy (m + 1)).length) := by simp; omega
+      rw [hl, isaRun_add, isaRun_add]
+      have e1 : isaRun env w (pre ++ (Instr.clr (fresh busy) :: Instr.r2m (fresh busy) m :: preambleFrom ds busy (m + 1)) ++ post) 1 cfg
+          = execInstr env w cfg (Instr.clr (fresh busy)) := by
+        rw [hP]; exact isaRun_one_at env w pre _ _ cfg hpc
+      rw [e1]
+      have e2 : isaRun env w (pre ++ (Instr.clr (fresh busy) :: Instr.r2m (fresh busy) m :: preambleFrom ds busy (m + 1)) ++ post) 1
+            (execInstr env w cfg (Instr.clr (fresh busy)))
+          = execInstr env w (execInstr env w cfg (Instr.clr (fresh busy))) (Instr.r2m (fresh busy) m) := by
+        rw [hP1]; exact isaRun_one_at env w _ _ _ _ (by simp [execInstr, hpc])
+      rw [e2]
+      have hz2 : ZeroState (execInstr env w (execInstr env w cfg (Instr.clr (fresh busy))) (Instr.r2m (fresh busy) m)) :=
+        ⟨by simp [execInstr, hz.regs, upd_zero], by simp [execInstr, hz.mem, hz.regs, upd_zero],
+         by simp [execInstr, hz.rc], by simp [execInstr, hz.outs]⟩
+      have := ih busy (m + 1) (pre ++ [Instr.clr (fresh busy), Instr.r2m (fresh busy) m]) post _ (by simp [execInstr, hpc]) hz2
+      rw [← hP2] at this
+      refine ⟨by rw [this.1]; simp; omega, this.2⟩
+
+
+theorem locsFrom_spec (ds : List Bool) :
+    ∀ (busy : List Nat) (m : Nat),
+      (∀ (x g : Nat), (locsFrom ds busy m)[x]? = some (.reg g) → g ∉ busy) ∧
+      (∀ (x k : Nat), (locsFrom ds busy m)[x]? = some (.mem k) → m ≤ k) ∧
+      LocsInj (locsFrom ds busy m) := by
+  induction ds with
+  | nil =>
+    intro busy m
+    refine ⟨fun x g h => by simp [locsFrom] at h, fun x k h => by simp [locsFrom] at h,
+            fun x y l h => by simp [locsFrom] at h⟩
+  | cons d ds ih =>
+    intro busy m
+    cases d with
+    | true =>
+      obtain ⟨i1, i2, i3⟩ := ih (fresh busy :: busy) m
+      simp only [locsFrom]
+      refine ⟨fun x g h => ?_, fun x k h => ?_, fun x y l hx hy => ?_⟩
+      · cases x with
+        | zero =>
+          simp only [List.getElem?_cons_zero, Option.some.injEq, Loc.reg.injEq] at h
+          subst h; exact fresh_not_mem _
+        | succ x =>
+          simp only [List.getElem?_cons_succ] at h
+          exact fun hb => i1 x g h (List.mem_cons_of_mem _ hb)
+      · cases x with
+        | zero => simp at h
+        | succ x => simp only [List.getElem?_cons_succ] at h; exact i2 x k h
+      · cases x with
+        | zero =>
+          cases y with
+          | zero => rfl
+          | succ y =>
+            simp only [List.getElem?_cons_zero, Option.some.injEq] at hx
+            simp only [List.getElem?_cons_succ] at hy
+            subst hx
+            exact absurd List.mem_cons_self (i1 y _ hy)
+        | succ x =>
+          cases y with
+          | zero =>
+            simp only [List.getElem?_cons_zero, Option.some.injEq] at hy
+            simp only [List.getElem?_cons_succ] at hx
+            subst hy
+            exact absurd List.mem_cons_self (i1 x _ hx)
+          | succ y =>
+            simp only [List.getElem?_cons_succ] at hx hy
+            rw [i3 x y l hx hy]
+    | false =>
+      obtain ⟨i1, i2, i3⟩ := ih busy (m + 1)
+      simp only [locsFrom]
+      refine ⟨fun x g h => ?_, fun x k h => ?_, fun x y l hx hy => ?_⟩
+      · cases x with
+        | zero => simp at h
+        | succ x => simp only [List.getElem?_cons_succ] at h; exact i1 x g h
+      · cases x with
+        | zero =>
+          simp only [List.getElem?_cons_zero, Option.some.injEq, Loc.mem.injEq] at h
+          omega
+        | succ x =>
+          simp only [List.getElem?_cons_succ] at h
+          have := i2 x k h; omega
+      · cases x with
+        | zero =>
+          cases y with
+          | zero => rfl
+          | succ y =>
+            simp only [List.getElem?_cons_zero, Option.some.injEq] at hx
+            simp only [List.getElem?_cons_succ] at hy
+            subst hx
+            have := i2 y _ hy; omega
+        | succ x =>
+          cases y with
+          | zero =>
+            simp only [List.getElem?_cons_zero, Option.some.injEq] at hy
+            simp only [List.getElem?_cons_succ] at hx
+            subst hy
+            have := i2 x _ hx; omega
+          | succ y =>
+            simp only [List.getElem?_cons_succ] at hx hy
+            rw [i3 x y l hx hy]
+
+theorem locs_inj (decls : List Bool) : LocsInj (locs decls) := (locsFrom_spec decls [] 0).2.2
+
+theorem mem_varRegs {ls : List Loc} {x g : Nat} (h : ls[x]? = some (.reg g)) : g ∈ varRegs ls := by
+  unfold varRegs
+  refine List.mem_filterMap.mpr ⟨.reg g, List.mem_of_getElem? h, rfl⟩
+
+/-- whole straight-line programs: the compiled program, run for exactly its own length, has left
+    the program and has written exactly the outputs of `goEval` -/
+theorem compile_straight (env : Nat → Nat → Nat) (w fuel : Nat) (p : Prog) (code : List Instr)
+    (hc : compile p = some code) (hs : straight p.body = true) :
+    runCode env w code code.length = ((goEval env w fuel p).1, true) ∧ (goEval env w fuel p).2 = true := by
+  unfold compile at hc
+  simp only at hc
+  split at hc
+  · rename_i c busy' hcs
+    simp only [Option.some.injEq] at hc
+    subst hc
+    have hz0 : ZeroState ({} : Cfg) := ⟨rfl, rfl, rfl, rfl⟩
+    have hpre := preamble_run env w p.decls [] 0 [] c {} rfl hz0
+    simp only [List.nil_append, List.length_nil, Nat.zero_add] at hpre
+    obtain ⟨hp1, hp2⟩ := hpre
+    have hag : Agree (locs p.decls) (varRegs (locs p.decls))
+        (isaRun env w (preamble p.decls ++ c) (preamble p.decls).length {}) {} := by
+      refine ⟨fun x g hl => ⟨?_, mem_varRegs hl⟩, fun x m hl => ?_, ?_⟩
+      · show (isaRun env w (preambleFrom p.decls [] 0 ++ c) (preambleFrom p.decls [] 0).length {}).regs g = 0
+        rw [hp2.regs]
+      · show (isaRun env w (preambleFrom p.decls [] 0 ++ c) (preambleFrom p.decls [] 0).length {}).mem m = 0
+        rw [hp2.mem]
+      · exact hp2.rc
+    have hst := straight_correct env w fuel (locs p.decls) (locs_inj p.decls) p.body hs
+      (preamble p.decls).length (varRegs (locs p.decls)) c busy' hcs (preamble p.decls) []
+      (isaRun env w (preamble p.decls ++ c) (preamble p.decls).length {}) {}
+      hp1 hag hp2.outs
+    simp only [List.append_nil] at hst
+    obtain ⟨s1, s2, s3, s4⟩ := hst
+    rw [← isaRun_add] at s2 s4
+    have hlen : (preamble p.decls ++ c).length = (preamble p.decls).length + c.length := by simp
+    refine ⟨?_, s1⟩
+    simp only [runCode, goEval, hlen, s4, s2, Nat.le_refl, decide_true]
+  · cases hc
+
+
 end BMV.Bondgo
